@@ -3,9 +3,9 @@ package model
 import (
 	"fmt"
 	"os"
-	"strings"
 	"path/filepath"
 	"sort"
+	"strings"
 	"sync"
 
 	"verif/harness/smlab"
